@@ -95,6 +95,21 @@ impl Taxonomy {
             Some(d) => Self::is_symbols(d).filter(|x| t.contains_key(x)).map(String::from).collect(),
         }
     }
+    /// does the `is` list of `s` name one defined def twice (then supertypes_of lists it twice as well)
+    pub fn supertypes_repeat(&self, s: &str) -> bool {
+        let t = self.table();
+        match t.get(s) {
+            None => false,
+            Some(d) => {
+                let v: Vec<&str> = Self::is_symbols(d).filter(|x| t.contains_key(*x)).collect();
+                v.iter().collect::<BTreeSet<_>>().len() != v.len()
+            }
+        }
+    }
+    /// does some def name `s` twice in its `is` list
+    pub fn subtypes_repeat(&self, s: &str) -> bool {
+        self.table().values().any(|d| Self::is_symbols(d).filter(|x| *x == s).count() > 1)
+    }
     pub fn all_supertypes(&self, s: &str) -> BTreeSet<String> {
         let mut out = BTreeSet::new();
         let mut stack: Vec<String> = self.supertypes(s).into_iter().collect();
@@ -385,8 +400,8 @@ pub fn ask_lib(ns: &'static Namespace<'static>, q: &Query) -> Answer {
     match q {
         Query::Get(a) => Answer::Bool(ns.get(&sym(a)).is_some() && ns.has(&sym(a)) && ns.has_name(a) && ns.get_by_name(a).is_some()),
         Query::Subtypes(a) => {
-            let (s, _) = names_of(ns.subtypes_of(&sym(a)).iter());
-            Answer::Set(s, false)
+            let (s, d) = names_of(ns.subtypes_of(&sym(a)).iter());
+            Answer::Set(s, d)
         }
         Query::AllSubtypes(a) => {
             let v = ns.all_subtypes_of(&sym(a));
@@ -395,8 +410,8 @@ pub fn ask_lib(ns: &'static Namespace<'static>, q: &Query) -> Answer {
         }
         Query::Supertypes(a) => {
             let g = ns.supertypes_of(&sym(a));
-            let (s, _) = names_of(g.iter().copied());
-            Answer::Set(s, false)
+            let (s, d) = names_of(g.iter().copied());
+            Answer::Set(s, d)
         }
         Query::AllSupertypes(a) => {
             let v = ns.all_supertypes_of(&sym(a));
@@ -438,9 +453,10 @@ pub fn ask_lib(ns: &'static Namespace<'static>, q: &Query) -> Answer {
 pub fn ask_model(t: &Taxonomy, q: &Query) -> Answer {
     match q {
         Query::Get(a) => Answer::Bool(t.defined(a)),
-        Query::Subtypes(a) => Answer::Set(t.subtypes(a), false),
+        // the flag of a model answer = "a repeated entry is expected" (the def list itself repeats a name)
+        Query::Subtypes(a) => Answer::Set(t.subtypes(a), t.subtypes_repeat(a)),
         Query::AllSubtypes(a) => Answer::Set(t.all_subtypes(a), false),
-        Query::Supertypes(a) => Answer::Set(t.supertypes(a), false),
+        Query::Supertypes(a) => Answer::Set(t.supertypes(a), t.supertypes_repeat(a)),
         Query::AllSupertypes(a) => Answer::Set(t.all_supertypes(a), false),
         Query::Inheritance(a) => Answer::Set(t.inheritance(a), false),
         Query::Fits(a, b) => Answer::Bool(t.fits(a, b)),
